@@ -53,6 +53,11 @@ def pairing(ctx, rule):
             # `let token = self.lookup_token(..)?; sv.get_original_function_name(token, name)`
             ok, inner = True, ["SourceView::get_original_function_name(^arg5,arg2,^arg4)"]
         ctx.check(ok, rule, p, "lookup-then-resolve", "the map-level entry looks the position up and resolves from that token", detail=str(calls)[:200])
+        # ... from whatever token the lookup found (also one on an earlier line): no answer of its own in between
+        rets = [sh for sh, _, _ in q.def_shapes(bb, 0, {})]
+        ok_r = all(sh.startswith("Option::and_then(") and "lookup_token(arg1,arg2,arg3)" in sh or sh.startswith("SourceView::get_original_function_name(") or
+                   (sh.startswith("FromResidual::from_residual(") and "lookup_token(arg1,arg2,arg3)" in sh) for sh in rets)
+        ctx.check(bool(rets) and ok_r, rule, p, "wrapper:no-own-answer", "the wrapper returns only what the lookup and the resolution return (no extra condition on the found token)", detail=str(rets)[:300])
         ctx.check(inner == ["SourceView::get_original_function_name(^arg5,arg2,^arg4)"], rule, p, "resolve-args", "token, minified name and view are forwarded unchanged", detail=str(inner))
 
 
